@@ -403,6 +403,10 @@ class Assembler:
                 if mm and o[0] == "src":
                     lines.pairs[k] = (l[: mm.end(1)] + "pub " + l[mm.end(1):], o)
                     continue
+                mm = re.match(r"(\s+)pub\((?:crate|super)\)\s+([a-z_][A-Za-z0-9_]*\s*:)", l)
+                if mm and o[0] == "src":
+                    lines.pairs[k] = (mm.group(1) + "pub " + l[mm.start(2):], o)
+                    continue
                 # one-field tuple struct `struct Name(Type);`
                 mm = re.match(r"(\s*(?:pub(?:\([a-z]+\))?\s+)?struct\s+\w+(?:<[^>]*>)?\()(?!pub\b)([^,()]+\);)\s*$", l)
                 if mm and o[0] == "src":
